@@ -48,7 +48,8 @@ H('C08', 'All histories of schema-affecting bundles (incl. failing ones): after 
          'engine.schema and no column record may lack a table record.')
 H('C09', 'All histories of table/column/view/section/field/summary actions: after each successful '
          'bundle every reference in the metadata tables must resolve, helper columns must be in use, '
-         'and each user table has exactly one record with a raw section.')
+         'and each user table has exactly one record with a raw section; world W_views adds widgets '
+         'linked across tables, saved filters, field rules and display helpers and what orphans them.')
 H('C10', 'All histories whose last bundle makes rows disappear: no Ref/RefList data cell of any user '
          'or metadata table may still hold a removed id; RefLists keep the other ids in order.')
 H('C11', 'All histories over the two-way reference world: every reverse-linked column pair is '
@@ -56,8 +57,10 @@ H('C11', 'All histories over the two-way reference world: every reverse-linked c
          'bundles leave the dump unchanged; histories continue past rejected bundles.')
 H('C12', 'All histories over the summary world: each summary table is compared with a reference '
          'group-by of its source after every successful bundle.')
-H('C13', 'All histories over the lookup world: 18 lookup specs x lookupRecords/lookupOne compared with '
-         'a naive filter + documented sort after every bundle.')
+H('C13', 'All histories over the lookup world: 21 lookup specs x lookupRecords/lookupOne compared with '
+         'a naive filter + documented sort after every bundle; plus the lookup life-cycle world W_look2 '
+         '(one referring row; sort column removed/restored, order_by switched and back, later columns and '
+         'tables, errored key cells, undo as a step) against its own reference.')
 H('C31', 'All histories of record-edit bundles: direct flags parallel stored actions; formula '
          'results, summary row maintenance and empty-column conversions must be non-direct, the '
          'requested edits direct.')
@@ -150,7 +153,7 @@ H('C30', 'All histories up to the depth executed in 4/16 separate processes with
 H('C23', 'Every ordered pair of 12 column types x a column of 15/25 stored values of the source type x '
          '{ModifyColumn, metadata UpdateRecord}: each new cell equals the conversion by a separately '
          'constructed column of the new type; nothing else changes but dependent formulas (compared '
-         'with a fresh recomputation).',
+         'with a fresh recomputation); an engine replaying only the stored actions reports the same data.',
   tech='exhaustive enumeration of type pairs x stored-value menus on the real engine')
 
 E('C17', 'Predicate formulas from a grammar (63 contexts x 12/62 atoms, two- and three-hole contexts, broken '
